@@ -44,6 +44,21 @@ fn conc_step(sh: &Shared, e: &Sexp) -> Option<()> {
       });
       Some(())
     }
+    "sub-after" => {
+      // a thread that subscribes (a late subscriber racing the producers)
+      let ms = a.first()?.nat()? as u64;
+      let o = pipe(sh, a.get(1)?)?;
+      let sh = sh.clone();
+      vthread::spawn(move || {
+        if ms > 0 {
+          vthread::sleep(Duration::from_millis(ms));
+        }
+        sh.rec("S!".to_string());
+        user_subscribe(&sh, &o, Vec::new());
+        sh.rec("S.".to_string());
+      });
+      Some(())
+    }
     "drive" => {
       let name = a.first()?.atom()?.to_string();
       let mut acts = Vec::new();
